@@ -8,7 +8,9 @@ Streams
                     model only) vs the model on the whole text (ipaddress / NFKC / lower+IDNA evaluated here);
                     oracle: ASCII, idempotent, one-step fixpoints, nothing reserved or invalid is reinterpreted
   environ-roundtrip EnvironBuilder(path, query, base_url) -> Request.path / args / host / url (oracle only)
-  environ-kernel    EnvironBuilder(path, base_url, query_string=str) -> environ -> Request fields vs Model.UrlEnviron
+  environ-kernel    EnvironBuilder(path, base_url, query_string=str) -> environ -> Request fields and
+                    werkzeug.wsgi.get_current_url(environ) (all flag combinations) vs Model.UrlEnviron;
+                    oracle: the environ-level URLs equal Request.url / base_url / root_url / host_url
   dispatcher        DispatcherMiddleware over mount tables x paths vs Model.Url.dispatch;
                     oracle: SCRIPT_NAME + PATH_INFO preserved, longest '/'-boundary mount chosen
 """
@@ -612,7 +614,7 @@ class EnvironKernel(Stream):
     QS = ["", "a=b", "a=b&c=d", "q=%C3%A9", "q=é", "x=1&x=2", "a+b=c%20d", "%zz", "k=%FF", "a=b#c", "é=ü&日本=😀", "a=%26%3D"]
     corpus = [
         {"path": hs(p), "base": b, "qs": hs(q)}
-        for p, b, q in [("/", 0, ""), ("/é/日本", 1, "q=é"), ("/a b", 2, "a=b"), ("/%41", 3, ""), ("/a\tb", 0, ""), ("/x?y", 0, "a=b"), ("//x/y", 0, ""), ("/a#b", 4, "k=%FF"), ("", 5, ""), ("rel/p", 6, ""), ("/%zz%", 7, "%zz"), ("/😀", 8, "é=ü"), ("/p", 9, ""), ("/p", 10, "a=b"), ("/p", 11, ""), ("/p", 12, ""), ("/p", 13, ""), ("/p", 14, ""), ("/p", 15, ""), ("/p", 16, ""), ("/p", 17, ""), ("/p", 18, ""), ("/%2541", 0, ""), ("/a%2520b", 1, ""), ("/a%3Fb%23c", 0, "q=1")]
+        for p, b, q in [("/", 0, ""), ("/é/日本", 1, "q=é"), ("/a b", 2, "a=b"), ("/%41", 3, ""), ("/a\tb", 0, ""), ("/x?y", 0, "a=b"), ("//x/y", 0, ""), ("/a#b", 4, "k=%FF"), ("", 5, ""), ("rel/p", 6, ""), ("/%zz%", 7, "%zz"), ("/😀", 8, "é=ü"), ("/caf%C3%A9", 0, ""), ("/café", 7, "q=é"), ("/日本/😀", 8, "x=1"), ("/é", 2, ""), ("/p", 9, ""), ("/p", 10, "a=b"), ("/p", 11, ""), ("/p", 12, ""), ("/p", 13, ""), ("/p", 14, ""), ("/p", 15, ""), ("/p", 16, ""), ("/p", 17, ""), ("/p", 18, ""), ("/%2541", 0, ""), ("/a%2520b", 1, ""), ("/a%3Fb%23c", 0, "q=1")]
     ]
 
     def cases(self, rng, tier):
@@ -634,9 +636,19 @@ class EnvironKernel(Stream):
 
         b = EnvironBuilder(path=unhs(case["path"]), base_url=self.base_url(case), query_string=unhs(case["qs"]))
         try:
+            from werkzeug.wsgi import get_current_url as wsgi_url
+
             env = b.get_environ()
             req = Request(env)
-            return ",".join(hs(env[k]) for k in ("PATH_INFO", "SCRIPT_NAME", "QUERY_STRING", "HTTP_HOST", "wsgi.url_scheme")) + "|" + ",".join([hs(req.path), hs(req.root_path), hs(req.host), hs(req.url)])
+            # the environ-level public function, for its flag combinations
+            w = [wsgi_url(env), wsgi_url(env, strip_querystring=True), wsgi_url(env, root_only=True), wsgi_url(env, host_only=True), wsgi_url(env, root_only=True, strip_querystring=True, host_only=True)]
+            u = [req.url, req.base_url, req.root_url, req.host_url]
+            return (
+                ",".join(hs(env[k]) for k in ("PATH_INFO", "SCRIPT_NAME", "QUERY_STRING", "HTTP_HOST", "wsgi.url_scheme"))
+                + "|" + ",".join([hs(req.path), hs(req.root_path), hs(req.host), hs(req.url)])
+                + "|" + ",".join(hs(x) for x in w)
+                + "|" + ",".join(hs(x) for x in u)
+            )
         finally:
             b.close()
 
@@ -669,6 +681,12 @@ class EnvironKernel(Stream):
         if real_out.startswith("EXC"):
             return None
         rpath, rroot, rhost, rurl = (unhs(x) for x in real_out.split("|")[1].split(","))
+        # werkzeug.wsgi.get_current_url(environ) must equal what Request(environ) reports
+        w = [unhs(x) for x in real_out.split("|")[2].split(",")]
+        u = [unhs(x) for x in real_out.split("|")[3].split(",")]
+        for name, got, want in (("()", w[0], u[0]), ("(strip_querystring)", w[1], u[1]), ("(root_only)", w[2], u[2]), ("(host_only)", w[3], u[3]), ("(root_only, strip_querystring, host_only)", w[4], u[3])):
+            if got != want:
+                return f"wsgi.get_current_url{name} = {got!r} but the Request reports {want!r}"
         # the reconstructed URL must denote what the request reports: its path component unquotes to
         # root_path + path, whatever characters (incl. decoded '?', '#', '%') the path contains
         try:
@@ -813,7 +831,7 @@ CHECK = Check(
 
 MANIFEST = {
     "level_text": "Machine-checked Lean 4 theorems about an executable model of urllib quote/unquote with werkzeug's error handler, iri_to_uri / uri_to_iri on split components, the latin-1 dances and DispatcherMiddleware's mount loop: quote output is ASCII for every input and idempotent for every safe set iri_to_uri uses (decide on the literals collected from the AST on every run), hence iri_to_uri is ASCII and idempotent component-wise; the dance round trip is lossless for every string; uri_to_iri is a fixpoint after one step on every component whose '%' all start '%XX' escapes (UTF-8 decoder with CPython's error spans modelled; keep tables evaluated from the live patterns); the dispatcher preserves SCRIPT_NAME+PATH_INFO and picks the longest '/'-boundary mount. IRI->URI->IRI is stable after one round for every component of that grammar (the model's UTF-8 decoder and Lean's encoder are proved mutually inverse); unquote inverts quote on text without '%', hence the path given to EnvironBuilder reaches Request.path unchanged through the dances. urlsplit / urlunsplit are modelled too, and the component theorems are lifted to whole URL text for URLs of the grammar (iri_to_uri ASCII + idempotent; uri_to_iri one-step fixpoint; IRI->URI->IRI stable) under stated laws of the opaque IDNA / ipaddress / NFKC steps. Tied to the code by differential streams (incl. urlsplit-kernel and the end-to-end environ-kernel); Request.url is proved to split back and to denote root_path + path + query on the request side (get_current_url, get_host, the dances); EnvironBuilder's own parsing in front of it is stream-validated.",
-    "level_note": "Trusted: Lean kernel; extract.py; the correspondence harness; CPython urllib/codecs for modelled primitives. urlsplit/urlunsplit and IDNA are opaque. All DESIGN theorems (P0, P1) proved. Known finding F15c (EnvironBuilder drops TAB/CR/LF from the path); F15a / F15b / F15d (Request.url read a literal %XX of the unquoted path as an escape, 899f28c) were repaired in /repo (c7898ed, 319c4e1) and are regression cases of stream iri-uri.",
+    "level_note": "Trusted: Lean kernel; extract.py; the correspondence harness; CPython urllib/codecs for modelled primitives. urlsplit/urlunsplit and IDNA are opaque. All DESIGN theorems (P0, P1) proved. Known finding F15c (EnvironBuilder drops TAB/CR/LF from the path); F15a / F15b / F15d (Request.url read a literal %XX of the unquoted path as an escape, 899f28c) / F15e (wsgi.get_current_url skipped the decoding dance, 16e16ac) were repaired in /repo (c7898ed, 319c4e1) and are regression cases of stream iri-uri.",
     "technique": "Lean 4 proof (induction over byte lists, decide over AST-collected literals and regenerated keep tables, loop invariant for the dispatcher) + model/code correspondence + property oracles",
     "design_ref": "DESIGN.md section 4, C15",
 }
